@@ -56,7 +56,7 @@ typedef struct {
     int type;                 /* token type for RAW */
     int to_mask;              /* RAW: bit k set = the k-th of SCPI_ParamToInt32/UInt32/Int64/UInt64/Float/Double returned TRUE on the token */
     char raw[64]; int rawlen; /* first bytes of the raw extent (CHARS/BLOCK/RAW/COPYTEXT result) */
-    long rawoff;              /* offset of raw extent from start of unit header */
+    long rawoff;              /* offset of raw extent from the start of the unit's program data */
     int fullrawlen;
     int unit, special, base, tag;
     size_t count;             /* arrays / copy_len */
